@@ -459,6 +459,7 @@ LOOP:
 				break
 			}
 			if !ok {
+				verifIdle(g)
 				time.Sleep(g.TickerDuration)
 				// TODO: Add a timeout to not wait infinitely for a task.
 				continue
